@@ -285,3 +285,74 @@ func harnessC08Hooks() {
 		vCover("never-cancelled")
 	}
 }
+
+//verif:entry property=C08 tier=both bounds="all four publish hooks installed; two synchronous handlers with symbolic Once flags, the first of which changes the registry from inside the delivery (nothing / Clear of the type / ClearAll / unsubscribes itself / subscribes one more handler); two publishes (typed or interface-typed): per publish every before hook exactly once before any handler, every after hook exactly once after the last handler, with the event and its type" cover="hooks-around-registry-change"
+func harnessC08HooksWithRegistryChanges() {
+	var trace []int
+	wantT := reflect.TypeOf(evA{})
+	argsOK := true
+	chk := func(t reflect.Type, ev any) {
+		e, ok := ev.(evA)
+		argsOK = argsOK && t == wantT && ok && e.N >= 40
+	}
+	bus := New(
+		WithBeforePublish(func(t reflect.Type, ev any) { chk(t, ev); trace = append(trace, 1) }),
+		WithBeforePublishContext(func(ctx context.Context, t reflect.Type, ev any) { chk(t, ev); trace = append(trace, 2) }),
+		WithAfterPublish(func(t reflect.Type, ev any) { chk(t, ev); trace = append(trace, 3) }),
+		WithAfterPublishContext(func(ctx context.Context, t reflect.Type, ev any) { chk(t, ev); trace = append(trace, 4) }),
+	)
+	action := vPick(5)
+	once0, once1 := vBool(), vBool()
+	var h0 Handler[evA]
+	h0 = func(e evA) {
+		trace = append(trace, 10)
+		switch action {
+		case 1:
+			Clear[evA](bus)
+		case 2:
+			ClearAll(bus)
+		case 3:
+			_ = Unsubscribe[evA](bus, h0)
+		case 4:
+			_ = Subscribe(bus, func(e evA) { trace = append(trace, 12) })
+		}
+	}
+	var so0, so1 []SubscribeOption
+	if once0 {
+		so0 = append(so0, Once())
+	}
+	if once1 {
+		so1 = append(so1, Once())
+	}
+	vAssert(Subscribe(bus, h0, so0...) == nil, "subscribe-ok")
+	vAssert(Subscribe(bus, func(e evA) { trace = append(trace, 11) }, so1...) == nil, "subscribe-ok")
+	for p := 0; p < 2; p++ {
+		trace = nil
+		if vBool() {
+			Publish[any](bus, evA{N: 40 + p})
+		} else {
+			Publish(bus, evA{N: 40 + p})
+		}
+		count := map[int]int{}
+		firstHandler, lastHandler := -1, -1
+		pos := map[int]int{}
+		for i, x := range trace {
+			count[x]++
+			pos[x] = i
+			if x >= 10 {
+				if firstHandler < 0 {
+					firstHandler = i
+				}
+				lastHandler = i
+			}
+		}
+		vAssert(count[1] == 1 && count[2] == 1, "before-hooks-exactly-once")
+		vAssert(count[3] == 1 && count[4] == 1, "after-hooks-exactly-once")
+		if firstHandler >= 0 {
+			vAssert(pos[1] < firstHandler && pos[2] < firstHandler, "before-hooks-precede-handlers")
+			vAssert(pos[3] > lastHandler && pos[4] > lastHandler, "after-hooks-follow-sync-handlers")
+		}
+		vAssert(argsOK, "hooks-get-event-and-type")
+	}
+	vCover("hooks-around-registry-change")
+}
